@@ -589,8 +589,15 @@ type runResult struct {
 }
 
 func runCLI(dir string, args []string, timeout time.Duration) runResult {
+	return runCLIStdin(dir, args, nil, timeout)
+}
+
+func runCLIStdin(dir string, args []string, stdin []byte, timeout time.Duration) runResult {
 	cmd := exec.Command(fw.FalcoBin(), args...)
 	cmd.Dir = dir
+	if stdin != nil {
+		cmd.Stdin = bytes.NewReader(stdin)
+	}
 	cmd.Env = []string{"HOME=" + dir, "PATH=/usr/bin:/bin", "TERM=xterm", "NO_COLOR=1"}
 	var so, se bytes.Buffer
 	cmd.Stdout, cmd.Stderr = &so, &se
